@@ -56,7 +56,26 @@ impl GenUnit {
 /// A unit aimed at some leaf; `hostile` enables the variants that should NOT resolve.
 pub fn gen_unit(rng: &mut Rng, t: &RTree, level: usize, first: bool, hostile: bool) -> GenUnit {
     let query = rng.chance(2, 5);
-    let roll = if hostile { rng.usize(20) } else { rng.usize(15) };
+    let roll = if hostile { rng.usize(21) } else { rng.usize(15) };
+    if roll == 20 {
+        // onto or below a branch without children (absolute header): designates nothing
+        let empties: Vec<usize> = (1..t.nodes.len()).filter(|n| t.nodes[*n].handler.is_none() && t.nodes[*n].children.is_empty() && !t.nodes[*n].name.is_empty()).collect();
+        if let Some(&e) = empties.first() {
+            let e = if empties.len() > 1 { *rng.pick(&empties) } else { e };
+            let mut mnems: Vec<Vec<u8>> = vec![];
+            for &n in &t.path(e) {
+                let nd = &t.nodes[n];
+                if nd.name.is_empty() || (nd.default && rng.bool()) {
+                    continue;
+                }
+                mnems.push(spell(rng, &nd.name));
+            }
+            if rng.chance(3, 4) {
+                mnems.push(rng.pick(&[&b"FOO"[..], b"CLOSe", b"A", b"STATe1"]).to_vec());
+            }
+            return GenUnit { colon: true, mnems, query, kind: "empty-branch" };
+        }
+    }
     let leaf = *rng.pick(&t.leaves);
     let path = t.path(leaf);
     let is_common = t.nodes[leaf].name.first() == Some(&b'*');
